@@ -143,13 +143,20 @@ def analyse(pid, overlay):
         if fname.startswith("c" + pid[1:]) and fname.endswith(".py"):
             modname = "rules." + fname[:-3]
     mod = importlib.import_module(modname)
+    run = Run(pid, "thorough", getattr(mod, "LEVEL", "other"))
     try:
         idx = RepoIndex(overlay=overlay)
-        run = Run(pid, "thorough", getattr(mod, "LEVEL", "other"))
         mod.check(idx, run)
         if hasattr(mod, "check_thorough"):
             mod.check_thorough(idx, run)
     except AnalysisError as err:
+        known = load_known()
+        new = [f for f in run.findings
+               if not (f.key in known and
+                       known[f.key].get("status") == "known" and
+                       known[f.key].get("property") == pid)]
+        if new:
+            return new, None
         return None, str(err)
     known = load_known()
     new = [f for f in run.findings
